@@ -417,29 +417,32 @@ static void sync_mem_top(void)
                         if (differs(cmds[i].vars[j].last, cmds[i].vars[j].orig->data, cmds[i].vars[j].size)) emit_setmem(i, j, 0);
 }
 
+static int mem_before_n;          /* number of variables captured by the innermost mem_before (callbacks may nest) */
 static uint8_t **mem_before(void)
 {
         int n = 0;
         for (int i = 0; i < ncmds; i++) n += cmds[i].nvars;
-        uint8_t **b = calloc((size_t)n + 1, sizeof *b);
+        uint8_t **b = calloc((size_t)n + 2, sizeof *b);
+        b[0] = (uint8_t *)(uintptr_t)n;
         n = 0;
         for (int i = 0; i < ncmds; i++)
                 for (int j = 0; j < cmds[i].nvars; j++, n++) {
-                        b[n] = malloc(cmds[i].vars[j].size ? cmds[i].vars[j].size : 1);
-                        cpy(b[n], cmds[i].vars[j].orig->data, cmds[i].vars[j].size);
+                        b[n + 1] = malloc(cmds[i].vars[j].size ? cmds[i].vars[j].size : 1);
+                        cpy(b[n + 1], cmds[i].vars[j].orig->data, cmds[i].vars[j].size);
                 }
+        (void)mem_before_n;
         return b;
 }
 
-/* storage changed by the program's callback that just returned */
+/* storage changed by the program's callback that just returned (commands registered during the callback are not compared) */
 static void handler_mem(uint8_t **b)
 {
+        int total = (int)(uintptr_t)b[0];
         int n = 0;
-        for (int i = 0; i < ncmds; i++)
-                for (int j = 0; j < cmds[i].nvars; j++, n++) {
-                        if (b[n] == NULL) continue;     /* command registered during the callback */
-                        if (differs(b[n], cmds[i].vars[j].orig->data, cmds[i].vars[j].size)) emit_setmem(i, j, 1);
-                        free(b[n]);
+        for (int i = 0; i < ncmds && n < total; i++)
+                for (int j = 0; j < cmds[i].nvars && n < total; j++, n++) {
+                        if (differs(b[n + 1], cmds[i].vars[j].orig->data, cmds[i].vars[j].size)) emit_setmem(i, j, 1);
+                        free(b[n + 1]);
                 }
         free(b);
 }
